@@ -1,7 +1,7 @@
 #!/bin/bash
 # usage: seedtest.sh <patch.diff> <Cxx> [tier] : apply a seeded patch to /repo, run the check, revert.
 set -u
-PATCH=$1; PROP=$2; TIER=${3:-quick}
+PATCH=$(realpath "$1"); PROP=$2; TIER=${3:-quick}
 cd /repo || exit 9
 if ! git diff --quiet; then echo "repo dirty, refusing"; exit 9; fi
 if ! git apply --check "$PATCH" 2>/dev/null; then echo "PATCH-DOES-NOT-APPLY $PATCH"; exit 8; fi
